@@ -27,7 +27,8 @@ RULE = ('(a) codes 92..255 x count bytes (quick: {0,1,2,3,126,127,128,129,200,'
         'never-raise) installed at free codes (quick: 6 codes, thorough: all) '
         'x generated scripts using the forked code outside TRY, run on both '
         'VMs. distinct = by (code, count, depth, context) resp. script bytes; '
-        'non-trivial = count >= 1, or a script whose fork predicate fails')
+        'non-trivial = count >= 1, or a script whose fork predicate fails'
+        " [plus 15 name stems and 10 alias stems, the fork's name and both aliases in ten block positions, every spelling of the count byte, other codes undisturbed, the fork installed before or after the old table was used]")
 ASSUMPTIONS = [
     'fork ops conform to the NOP contract (signed count, error if negative, '
     'remove exactly count items, may additionally raise)',
